@@ -188,7 +188,12 @@ func (ex *Exec) applyContract(fr *Frame, fn *ssa.Function, ct *Contract, args []
 	}
 	var ret Val
 	if ct.Pure {
+		nd := len(pre.defs)
 		ret = ex.pureResult(fn, args, pre, ctx)
+		// representation invariants of the uninterpreted result (non-negative lengths, integer ranges)
+		for _, d := range pre.defs[nd:] {
+			st.AssumeDef(d)
+		}
 	} else {
 		ret = ex.freshResults(st, fn.Signature)
 	}
@@ -514,6 +519,9 @@ func (ex *Exec) evalInvariant(fr *Frame, lp *Loop, iv Clause, st *State) *Term {
 		ex.unsupp("invariant [%s] of loop %d in %s: %s", iv.Label, lp.ordinal, fr.fn.Name(), m)
 	}
 	if c == nil {
+		// the clause cannot be evaluated on this code (e.g. it names a local that no longer exists):
+		// as an assumption it says nothing, as an obligation it is not discharged
+		ex.invUnbound = true
 		return True
 	}
 	return c
@@ -640,8 +648,10 @@ func (ex *Exec) verifyFunction(fn *ssa.Function, ct *Contract, prefix string) *F
 		for _, en := range ct.Ensures {
 			c, err := post.EvalBool(en.Expr)
 			if err != nil {
+				// the clause cannot be evaluated on this code (a name it mentions no longer exists, or a call it
+				// refers to is not made on this path): reported, and the obligation counts as not discharged
 				ex.unsupp("ensures[%s]: %v", en.Label, err)
-				continue
+				c = False
 			}
 			name := prefix + "#ensures"
 			if en.Label != "" {
